@@ -251,7 +251,9 @@ func genSpec(seed int64, i int, wire int) *Spec {
 	} else {
 		tgts = append(tgts, tgt{"10.1.2.0/24", "unattached"})
 	}
-	un := []string{"203.0.113.0/24", "8.8.8.8", "10.1.2.0/24", "192.168.5.77", "0.0.0.0/0", "127.0.0.1", "10.9.9.0/24", "10.8.0.0/24"}
+	un := []string{"203.0.113.0/24", "8.8.8.8", "10.1.2.0/24", "192.168.5.77", "0.0.0.0/0", "127.0.0.1", "10.9.9.0/24", "10.8.0.0/24",
+		// refused by ParseIPNet: IPv4-mapped IPv6 forms, a zoned address, text that is no address
+		"::ffff:10.9.9.0/120", "::ffff:10.1.2.3", "fe80::1%lo", "10.1.2.0/33", "example.org"}
 	tgts = append(tgts, tgt{un[r.Intn(len(un))], "fixed"})
 	tgts = append(tgts, tgt{"", "no-target"})
 	switch {
